@@ -52,6 +52,25 @@ var c03Probes = []c03Src{
 	{"NotTarget", model.LabelSet{"alertname": "N", "e": "1"}},
 }
 
+// second scenario: a rule with TWO equal labels; sources and probes each lack one of them, with the same value
+// under different names (a comparison that forgets which label carried which value confuses them)
+var c03Equal = []string{"e"}
+
+var c03Sources2 = []c03Src{
+	{"Q1", model.LabelSet{"alertname": "Q1", "s": "1", "e": "1"}},           // f missing
+	{"Q2", model.LabelSet{"alertname": "Q2", "s": "1", "f": "1"}},           // e missing
+	{"Q3", model.LabelSet{"alertname": "Q3", "s": "1", "e": "1", "f": "1"}}, // both
+}
+
+var c03Probes2 = []c03Src{
+	{"Te", model.LabelSet{"alertname": "T", "t": "1", "e": "1"}},
+	{"Tf", model.LabelSet{"alertname": "T2", "t": "1", "f": "1"}},
+	{"Tef", model.LabelSet{"alertname": "T3", "t": "1", "e": "1", "f": "1"}},
+	{"Tnone", model.LabelSet{"alertname": "T4", "t": "1"}},
+	{"Tswap", model.LabelSet{"alertname": "T5", "t": "1", "e": "", "f": "1"}},
+	{"Tother", model.LabelSet{"alertname": "T6", "t": "1", "e": "1", "f": "2"}},
+}
+
 type c03Ev struct {
 	name string
 	src  int
@@ -105,7 +124,13 @@ func c03RefInhibited(firing []model.LabelSet, probe model.LabelSet) (bool, map[m
 		if !isSrc(s) {
 			continue
 		}
-		if string(s["e"]) != string(probe["e"]) { // missing counts as empty
+		same := true
+		for _, l := range c03Equal { // every equal label, by name; missing counts as empty
+			if string(s[model.LabelName(l)]) != string(probe[model.LabelName(l)]) {
+				same = false
+			}
+		}
+		if !same {
 			continue
 		}
 		if isSrc(probe) && isTgt(s) { // two-sided target is not inhibited by a two-sided source
@@ -134,7 +159,7 @@ func c03Run(t *testing.T, evs []c03Ev, h []int, wantKey bool) (res seqx.Result) 
 		rule := amcommoncfg.InhibitRule{
 			SourceMatchers: amcommoncfg.Matchers{mustMatcher(labels.MatchEqual, "s", "1")},
 			TargetMatchers: amcommoncfg.Matchers{mustMatcher(labels.MatchEqual, "t", "1")},
-			Equal:          []string{"e"},
+			Equal:          c03Equal,
 		}
 		ih := NewInhibitor(prov, []amcommoncfg.InhibitRule{rule}, logger, eventrecorder.NopRecorder())
 		go ih.run(ctx) // the subscription loop of Run(), without the 15m source-cache GC tickers (GC is an explicit event)
@@ -261,9 +286,15 @@ func TestVerifC03(t *testing.T) {
 		{"inhibitor-3src-pruned", 3, 6, 8, true},
 		{"inhibitor-5src-pruned", 5, 4, 6, true},
 		{"inhibitor-3src-all", 3, 4, 5, false},
+		{"inhibitor-two-equal-labels", 3, 4, 6, true},
 	}
 	deadline := rep.Deadline(10 * time.Minute)
+	src1, probes1 := c03Sources, c03Probes
 	for _, c := range cfgs {
+		c03Sources, c03Probes, c03Equal = src1, probes1, []string{"e"}
+		if c.part == "inhibitor-two-equal-labels" {
+			c03Sources, c03Probes, c03Equal = c03Sources2, c03Probes2, []string{"e", "f"}
+		}
 		evs := c03Alphabet(c.nsrc)
 		if rp := rep.ReplaySpec(); rp != nil {
 			if rp["part"] != c.part {
